@@ -1032,3 +1032,27 @@ CASES += [
     ("str_methods", ["abcxyz"]), ("str_methods", ["q"]), ("collections_ops", [[1, 2, 3, 4, 5]]), ("dataclass_tools", [1, 2]),
     ("key_functions", [[1, 5, 2]]), ("cached_things", [4]), ("int_bytes", [258]),
 ]
+
+
+def _make_hasher(k):
+    @_ft.lru_cache(maxsize=None)
+    def hasher(a, b):
+        return a * k + b
+    return hasher
+
+
+@_ft.lru_cache(maxsize=8)
+def _parsed(x):
+    return [x, x + 1]
+
+
+def lru_aliasing(n):
+    h = _make_hasher(3)
+    first = _parsed(n)
+    first.append("mark")
+    second = _parsed(n)           # the cached list, already modified
+    other = _parsed(n + 1)
+    return [h(1, 2), h(1, 2), h(n, 0), first is second, second, other, first is other]
+
+
+CASES += [("lru_aliasing", [4]), ("lru_aliasing", [0])]
